@@ -209,6 +209,16 @@ func (c *vT) build() {
 		vAssume(false)
 	}
 	c.computeRetained()
+	// optionally build (and drop) a second, unrelated trie: nothing a later build does may
+	// disturb a trie that is still alive (shared scratch memory, pools, caches)
+	switch vParamDef("other", 0) {
+	case 1:
+		_, err := NewSlimTrie(c.encoder(), []string{"pa", "pbc", "pbd", "q"}, nil, opt)
+		vAssert(err == nil, "build-ok")
+	case 2:
+		_, err := NewSlimTrie(encode.U16{}, []string{"\x00\x10", "\x00\x11\x7f", "\x00\x11\x80"}, []uint16{9, 8, 7})
+		vAssert(err == nil, "build-ok")
+	}
 }
 
 // ---------- oracles (linear scans over the input lists; fork-free) ----------
@@ -454,6 +464,9 @@ func (c *vT) sameIface(a, b interface{}) bool {
 		return a.(int16) == b.(int16)
 	case vEncI8:
 		return a.(int8) == b.(int8)
+	case vEncRec:
+		x, y := a.(vRec), b.(vRec)
+		return vAnd(x.Off == y.Off, x.Len == y.Len)
 	}
 	return a.(uint16) == b.(uint16)
 }
@@ -880,7 +893,11 @@ func H_l3_api() {
 	c.enc = vParam("enc")
 	check := vParam("check")
 	lq := vParam("lq")
-	vConcreteValues(c, vParam("runs"))
+	if vParamDef("symv", 0) == 1 {
+		c.symValues() // symbolic values (and value lengths, parameter vl) on concrete keys
+	} else {
+		vConcreteValues(c, vParam("runs"))
+	}
 	c.build()
 	if vParamDef("loaded", 0) == 1 {
 		c.st = c.reload(c.st)
